@@ -1,6 +1,6 @@
 (* drv_pb.ml — print-buffer domain.  Line: "<alloc_limit> op;op;..." with
    A<hex> memappend, N<hex>,<n> memappend with explicit size, S<off>,<c>,<len> memset,
-   F<hex> sprintbuf("%s"), G<hex> sprintbuf("%s%c%s…") (at most three NUL bytes inside), X<k> sprintbuf("<%s|%d|%s>", buf, k, buf), R reset. *)
+   F<hex> sprintbuf("%s"), G<hex> sprintbuf("%s%c%s…") (at most three NUL bytes inside), X<k> sprintbuf("<%s|%d|%s>", buf, k, buf), T<n> two threads x n prints into their own buffers (independent: 0 mismatches), R reset. *)
 open Model
 open Util
 
@@ -35,6 +35,7 @@ let run line =
       List.iter (fun s ->
         (* X<k>: sprintbuf(p, "<%s|%d|%s>", p->buf, k, p->buf) — the arguments point into the buffer itself;
            the text is formatted from the contents as they are before the call (up to the first NUL) *)
+        if s.[0] = 'T' then out := "threads 0" :: !out else
         let op =
           if s.[0] = 'X' then begin
             let k = String.sub s 1 (String.length s - 1) in
